@@ -77,6 +77,10 @@ pub const SNIPPETS: &[&str] = &[
     "S2 C1 ::= { S1 | S3 }",
     "S3 C1 ::= { S2 }",
     "S4 C1 ::= { ... }",
+    // an inverted character range next to an empty string; a PATTERN intersected with a contained subtype
+    "F6 ::= IA5String (\"\" | \"z\"..\"a\")",
+    "F7 ::= IA5String (FROM (\"\" | \"z\"..\"a\") ^ SIZE (1))",
+    "F8 ::= IA5String (PATTERN \"a\" ^ INCLUDES IA5String (SIZE (1..4)))",
     // a cycle of object sets that does not contain the set it is reached from
     "Sa C1 ::= { Sb }\nSb C1 ::= { Sc }\nSc C1 ::= { Sb }",
     // a named bit far beyond anything a value could spell out
